@@ -13,6 +13,10 @@
 // Line format (calls separated by " ; "):
 //   SEQ ; <fn> <tok>… => <ret> m<0|1> R<ids|-> a<id|-> s<first:res|-> M<ids|-> O<0|1> ; … ; END <ok|leak@where|crash:kind@where|hang@>
 //   (O1: an index argument was beyond the size of the object it indexes)
+//   Interruption is part of the legal API: the pseudo call `GEOS_interruptRegisterCallback i:<k>` arms the NEXT call of the sequence:
+//   a callback registered with GEOS_interruptRegisterCallback counts the checkpoint polls of that call and calls GEOS_interruptRequest()
+//   at the k-th one; when the call has returned the callback is unregistered and GEOS_interruptCancel() is called.  The armed call must
+//   end like any other: a result, or the error value with a message; no crash, no leak, nothing else modified.
 //   tok : o<id> object | a:<id,id,…> array | n NULL | d:<16 hex> double | i:<int> | s:<hex bytes> string/bytes | _ other
 //   ret : p0 NULL | p1 pointer | c:<n> char | i:<n> int | d:<16 hex> | v void | X:<crash:kind|hang|oom> the call did not return
 #include "common.h"
@@ -63,6 +67,10 @@ struct Ret {
 static int g_msgs = 0;
 static void noticeh(const char*, ...) {}
 static void errorh(const char*, ...) { g_msgs++; }
+// interruption: the registered callback is invoked at every checkpoint poll (GEOS_CHECK_FOR_INTERRUPTS) and requests at the k-th
+static long g_armK = 0, g_polls = 0, g_fired = 0;
+static long g_pendingArm = 0;     // set by the pseudo call, consumed by the next call
+static void interruptcb() { if (++g_polls == g_armK) { g_fired = 1; GEOS_interruptRequest(); } }
 
 struct Ctx {
     GEOSContextHandle_t h = nullptr;
@@ -157,6 +165,52 @@ static const char* WKT_POOL[] = {
     "POLYGON ((-5 -5, 30 -5, 30 30, -5 30, -5 -5), (2 2, 4 2, 4 4, 2 4, 2 2), (6 6, 8 6, 8 8, 6 8, 6 6))" };
 static const int N_WKT = sizeof WKT_POOL / sizeof WKT_POOL[0];
 static const char* WKT_CLASS(int i) { return i < 20 ? "ordinary" : i < 41 ? "empty" : i < 53 ? "nonfinite" : i < 61 ? "invalid" : i < 70 ? "zerolen" : i < 83 ? "curved" : i < 91 ? "huge" : "configured"; }
+// ---- structured literals, generated (deterministic, not random): all live in the frame [0,100]^2 so that any container / content pair is in
+// an interesting relative position.  Containers: comb polygons (2..5 teeth; 2 teeth = a U), squares with a grid of holes (rows at y = 80, 50, 20),
+// the same holes in a shell much larger than the frame, nested frames.  Contents: lines / strips / point sets whose vertices are strictly inside
+// every container while their segments cross notches / holes, and some that stay inside.
+struct GenPool { std::vector<std::string> cont, content, all; };
+static std::string num(double d) { char b[40]; snprintf(b, sizeof b, "%.10g", d); return b; }
+static std::string ringOf(const std::vector<std::pair<double, double>>& v) { std::string s = "("; for (size_t i = 0; i < v.size(); i++) { if (i) s += ", "; s += num(v[i].first) + " " + num(v[i].second); } return s + ")"; }
+static std::string combRing(int n) {
+    double u = 100.0 / (2 * n - 1); std::vector<std::pair<double, double>> v = {{0, 0}, {100, 0}, {100, 100}};
+    for (int i = n - 1; i >= 0; i--) { double x0 = 2 * i * u, x1 = (2 * i + 1) * u; if (i < n - 1) { v.push_back({x1, 30}); v.push_back({x1, 100}); } v.push_back({i ? x0 : 0.0, 100}); if (i) v.push_back({x0, 30}); }
+    v.push_back({0, 0}); return ringOf(v);
+}
+static std::string holeRings(int nx, int rows) {
+    static const double Y[] = {80, 50, 20}; std::string s;
+    for (int j = 0; j < rows; j++) for (int i = 0; i < nx; i++) { double cx = 100.0 * (i + 1) / (nx + 1), cy = Y[j];
+        s += ", " + ringOf({{cx - 5, cy - 5}, {cx + 5, cy - 5}, {cx + 5, cy + 5}, {cx - 5, cy + 5}, {cx - 5, cy - 5}}); }
+    return s;
+}
+static GenPool buildGenPool() {
+    GenPool g;
+    for (int n = 2; n <= 5; n++) g.cont.push_back("POLYGON (" + combRing(n) + ")");
+    g.cont.push_back("POLYGON (" + combRing(3) + ", (40 5, 60 5, 60 25, 40 25, 40 5))");
+    static const int GR[][2] = {{2, 1}, {3, 1}, {2, 2}, {3, 2}, {4, 3}};
+    for (auto& gr : GR) {
+        g.cont.push_back("POLYGON ((0 0, 100 0, 100 100, 0 100, 0 0)" + holeRings(gr[0], gr[1]) + ")");
+        g.cont.push_back("POLYGON ((-50 -50, 150 -50, 150 150, -50 150, -50 -50)" + holeRings(gr[0], gr[1]) + ")");
+    }
+    g.cont.push_back("MULTIPOLYGON (((0 0, 100 0, 100 100, 0 100, 0 0), (1 1, 99 1, 99 99, 1 99, 1 1)), ((2 2, 98 2, 98 98, 2 98, 2 2)" + holeRings(3, 2) + "))");
+    g.cont.push_back("GEOMETRYCOLLECTION (POLYGON ((-50 -50, 150 -50, 150 150, -50 150, -50 -50)" + holeRings(3, 2) + "), POINT (3 80))");
+    g.cont.push_back("MULTIPOLYGON (((-50 -50, 150 -50, 150 150, -50 150, -50 -50)" + holeRings(2, 2) + "), ((200 0, 300 0, 300 100, 200 100, 200 0)" + holeRings(2, 1) + "))");
+    g.cont.push_back("POLYGON ((0 0, 100 0, 100 100, 0 100, 0 0))");
+    static const char* C[] = {
+        "LINESTRING (3 80, 97 80)", "LINESTRING (3 50, 97 50)", "LINESTRING (3 80, 3 10, 97 10, 97 80)", "MULTILINESTRING ((3 80, 97 80), (3 10, 97 10))", "MULTILINESTRING ((3 10, 97 10), (3 12, 97 12))",
+        "POLYGON ((3 78, 97 78, 97 82, 3 82, 3 78))", "POLYGON ((2 2, 8 2, 8 8, 2 8, 2 2))", "POLYGON ((3 3, 97 3, 97 97, 3 97, 3 3))", "MULTIPOINT ((3 80), (97 80), (50 10))", "LINESTRING (3 80, 50 95, 97 80)",
+        "LINESTRING (0 80, 97 80)", "GEOMETRYCOLLECTION (LINESTRING (3 80, 97 80), POINT (3 10))", "LINEARRING (3 80, 97 80, 50 10, 3 80)", "MULTIPOLYGON (((3 78, 97 78, 97 82, 3 82, 3 78)), ((3 8, 97 8, 97 12, 3 12, 3 8)))",
+        "LINESTRING (3 20, 97 20, 97 50, 3 50)", "POINT (3 80)", "LINESTRING (-10 80, 110 80)" };
+    for (auto c : C) g.content.push_back(c);
+    g.all = g.cont; g.all.insert(g.all.end(), g.content.begin(), g.content.end());
+    return g;
+}
+static const GenPool& genPool() { static GenPool g = buildGenPool(); return g; }
+// poll numbers at which an armed interruption is requested
+static const long KPOOL[] = { 1, 1, 1, 2, 2, 2, 3, 3, 4, 4, 5, 6, 7, 8, 10, 13, 20, 40, 100 };
+// envelope-relative positions for coordinate-like parameters (clip windows, query points)
+static const double FPOOL[] = { -0.25, -0.1, 0.0, 0.05, 0.1, 0.25, 0.4, 0.5, 0.6, 0.75, 0.9, 0.95, 1.0, 1.1, 1.25 };
+static const size_t LONGLEN[] = { 1000, 1020, 1022, 1023, 1024, 1025, 1500, 2047, 2048, 3000, 4096, 5000 };
 static const char* BAD_WKT[] = { "", "POINT", "POINT (1", "POLYGON ((0 0, 1 1))", "LINESTRING (0 0)", "GEOMETRYCOLLECTION (POINT (1 1)", "FOO (1 1)", "POINT (1 2 3 4 5)",
     "LINEARRING (0 0, 1 1, 2 2)", "CIRCULARSTRING (0 0, 1 1)", "COMPOUNDCURVE ((0 0, 1 1), (5 5, 6 6))", "CURVEPOLYGON ((0 0, 1 1, 2 2))", "POINT (1e400 1)", "MULTIPOINT (1 1, 2 2", "POLYGON (EMPTY, (0 0, 1 0, 1 1, 0 0))" };
 static const char* PATTERNS[] = { "T*F**FFF*", "FF*FF****", "T********", "TTTTTTTTT", "*********", "0FFFFFFF2", "", "T", "XXXXXXXXX", "T*F**FFF*T", "212101212" };
@@ -232,7 +286,7 @@ static void registerAll() {
     reg("GEOSLargestEmptyCircle_r", "g g? dt", "constr", 2, [](Ctx& c, std::vector<Val>& a) { return rGeom(GEOSLargestEmptyCircle_r(H, c.G(A(0)), c.G(A(1)), A(2).d)); });
     reg("GEOSMinimumBoundingCircle_r", "g _ _", "constr", 2, [](Ctx& c, std::vector<Val>& a) {
         double r = 0; GEOSGeometry* ctr = nullptr; Ret x = rGeom(GEOSMinimumBoundingCircle_r(H, c.G(A(0)), &r, &ctr)); if (ctr) x.objs.push_back({GEOM, ctr}); return x; });
-    reg("GEOSClipByRect_r", "g d d d d", "constr", 2, [](Ctx& c, std::vector<Val>& a) { return rGeom(GEOSClipByRect_r(H, c.G(A(0)), A(1).d, A(2).d, A(3).d, A(4).d)); });
+    reg("GEOSClipByRect_r", "g dx dy dx dy", "constr", 3, [](Ctx& c, std::vector<Val>& a) { return rGeom(GEOSClipByRect_r(H, c.G(A(0)), A(1).d, A(2).d, A(3).d, A(4).d)); });
     reg("GEOSLineSubstring_r", "g d d", "constr", 2, [](Ctx& c, std::vector<Val>& a) { return rGeom(GEOSLineSubstring_r(H, c.G(A(0)), A(1).d, A(2).d)); });
     reg("GEOSGeom_setPrecision_r", "g d i", "constr", 3, [](Ctx& c, std::vector<Val>& a) { return rGeom(GEOSGeom_setPrecision_r(H, c.G(A(0)), A(1).d, (int) A(2).i)); });
     reg("GEOSGeomGetPointN_r", "g i", "constr", 2, [](Ctx& c, std::vector<Val>& a) { return rGeom(GEOSGeomGetPointN_r(H, c.G(A(0)), (int) A(1).i)); });
@@ -287,8 +341,8 @@ static void registerAll() {
         if (arr) { for (unsigned i = 0; i < n; i++) r.objs.push_back({GEOM, arr[i]}); GEOSFree_r(H, arr); } return r; });
     // ---- constructors
     reg("GEOSGeomFromWKT_r", "s:wkt", "create", 14, [](Ctx& c, std::vector<Val>& a) { return rGeom(GEOSGeomFromWKT_r(H, A(0).s.c_str())); });
-    reg("GEOSGeom_createPointFromXY_r", "d d", "create", 2, [](Ctx& c, std::vector<Val>& a) { return rGeom(GEOSGeom_createPointFromXY_r(H, A(0).d, A(1).d)); });
-    reg("GEOSGeom_createRectangle_r", "d d d d", "create", 2, [](Ctx& c, std::vector<Val>& a) { return rGeom(GEOSGeom_createRectangle_r(H, A(0).d, A(1).d, A(2).d, A(3).d)); });
+    reg("GEOSGeom_createPointFromXY_r", "dx dy", "create", 2, [](Ctx& c, std::vector<Val>& a) { return rGeom(GEOSGeom_createPointFromXY_r(H, A(0).d, A(1).d)); });
+    reg("GEOSGeom_createRectangle_r", "dx dy dx dy", "create", 2, [](Ctx& c, std::vector<Val>& a) { return rGeom(GEOSGeom_createRectangle_r(H, A(0).d, A(1).d, A(2).d, A(3).d)); });
 #define MK0(f) reg(#f, "", "create", 1, [](Ctx& c, std::vector<Val>& a) { (void) a; return rGeom(f(H)); });
     MK0(GEOSGeom_createEmptyPoint_r) MK0(GEOSGeom_createEmptyLineString_r) MK0(GEOSGeom_createEmptyPolygon_r) MK0(GEOSGeom_createEmptyCircularString_r)
     MK0(GEOSGeom_createEmptyCompoundCurve_r) MK0(GEOSGeom_createEmptyCurvePolygon_r)
@@ -331,8 +385,8 @@ static void registerAll() {
 #define PPRED(f) reg(#f, "prep g", "prep", 2, [](Ctx& c, std::vector<Val>& a) { return rChar(f(H, (const GEOSPreparedGeometry*) c.P(A(0)), c.G(A(1)))); });
     PPRED(GEOSPreparedContains_r) PPRED(GEOSPreparedContainsProperly_r) PPRED(GEOSPreparedCoveredBy_r) PPRED(GEOSPreparedCovers_r) PPRED(GEOSPreparedCrosses_r)
     PPRED(GEOSPreparedDisjoint_r) PPRED(GEOSPreparedIntersects_r) PPRED(GEOSPreparedOverlaps_r) PPRED(GEOSPreparedTouches_r) PPRED(GEOSPreparedWithin_r)
-    reg("GEOSPreparedContainsXY_r", "prep d d", "prep", 2, [](Ctx& c, std::vector<Val>& a) { return rChar(GEOSPreparedContainsXY_r(H, (const GEOSPreparedGeometry*) c.P(A(0)), A(1).d, A(2).d)); });
-    reg("GEOSPreparedIntersectsXY_r", "prep d d", "prep", 2, [](Ctx& c, std::vector<Val>& a) { return rChar(GEOSPreparedIntersectsXY_r(H, (const GEOSPreparedGeometry*) c.P(A(0)), A(1).d, A(2).d)); });
+    reg("GEOSPreparedContainsXY_r", "prep dx dy", "prep", 2, [](Ctx& c, std::vector<Val>& a) { return rChar(GEOSPreparedContainsXY_r(H, (const GEOSPreparedGeometry*) c.P(A(0)), A(1).d, A(2).d)); });
+    reg("GEOSPreparedIntersectsXY_r", "prep dx dy", "prep", 2, [](Ctx& c, std::vector<Val>& a) { return rChar(GEOSPreparedIntersectsXY_r(H, (const GEOSPreparedGeometry*) c.P(A(0)), A(1).d, A(2).d)); });
     reg("GEOSPreparedRelate_r", "prep g", "prep", 2, [](Ctx& c, std::vector<Val>& a) { return rPtr(BUF, GEOSPreparedRelate_r(H, (const GEOSPreparedGeometry*) c.P(A(0)), c.G(A(1)))); });
     reg("GEOSPreparedRelatePattern_r", "prep g s:pat", "prep", 2, [](Ctx& c, std::vector<Val>& a) { return rChar(GEOSPreparedRelatePattern_r(H, (const GEOSPreparedGeometry*) c.P(A(0)), c.G(A(1)), A(2).s.c_str())); });
     reg("GEOSPreparedNearestPoints_r", "prep g", "prep", 2, [](Ctx& c, std::vector<Val>& a) { return rPtr(CS, GEOSPreparedNearestPoints_r(H, (const GEOSPreparedGeometry*) c.P(A(0)), c.G(A(1)))); });
@@ -390,6 +444,8 @@ static void registerAll() {
     reg("GEOSGeoJSONWriter_create_r", "", "io", 2, [](Ctx& c, std::vector<Val>&) { return rPtr(JSONW, GEOSGeoJSONWriter_create_r(H)); });
     reg("GEOSGeoJSONWriter_destroy_r", "jwX", "destroy", 1, [](Ctx& c, std::vector<Val>& a) { GEOSGeoJSONWriter_destroy_r(H, (GEOSGeoJSONWriter*) c.P(A(0))); return rVoid(); });
     reg("GEOSGeoJSONWriter_writeGeometry_r", "jw g i", "io", 4, [](Ctx& c, std::vector<Val>& a) { return rPtr(BUF, GEOSGeoJSONWriter_writeGeometry_r(H, (GEOSGeoJSONWriter*) c.P(A(0)), c.G(A(1)), (int) A(2).i)); });
+    // ---- interruption (global, non-reentrant part of the API): arms the next call of the sequence, see the head of this file
+    reg("GEOS_interruptRegisterCallback", "ik", "interrupt", 0, [](Ctx& c, std::vector<Val>& a) { (void) c; g_pendingArm = A(0).i > 0 ? A(0).i : 0; return rVoid(); });
     // ---- parameter objects
     reg("GEOSBufferParams_create_r", "", "params", 3, [](Ctx& c, std::vector<Val>&) { return rPtr(BUFP, GEOSBufferParams_create_r(H)); });
     reg("GEOSBufferParams_destroy_r", "bpX", "destroy", 1, [](Ctx& c, std::vector<Val>& a) { GEOSBufferParams_destroy_r(H, (GEOSBufferParams*) c.P(A(0))); return rVoid(); });
@@ -439,6 +495,7 @@ struct Exec {
     long callNo = 0; std::set<long> skipCalls;   // generation: calls (by running number) that must not be executed again (they crashed)
     Ctx c; int out = 1;                       // fd for records
     std::map<int, int> name2slot;             // script result names -> actual slot ids (replay); identity in generation
+    std::map<std::string, long> istat;        // interruption statistics
     void put(const std::string& s) { std::string t = s + "\n"; size_t off = 0; while (off < t.size()) { ssize_t k = write(out, t.data() + off, t.size() - off); if (k <= 0) _exit(97); off += (size_t) k; } }
 
     static std::string tok(const Val& v) {
@@ -470,6 +527,7 @@ struct Exec {
 
     // run one call, emit "B"/"A" records; returns false when the call was skipped
     bool doCall(const Fn& f, std::vector<Val>& a, const std::vector<int>& resNames) {
+        long arm = 0; if (f.cat != "interrupt") { arm = g_pendingArm; g_pendingArm = 0; }     // an armed interruption belongs to exactly the next call, executed or not
         if (!legalArgs(f, a)) return false;
         long no = callNo++;
         if (skipCalls.count(no)) return false;
@@ -489,8 +547,12 @@ struct Exec {
             for (int i : ids) { if (firstObj < 0) firstObj = i; if (p.mode == 'x') consumed.push_back(i); else if (p.mode == 'm') mutated.push_back(i); else if (p.mode == 'r') retained.push_back(c.root(i)); } }
         int ownerOfView = firstObj >= 0 ? c.root(firstObj) : -1;
         g_msgs = 0;
+        if (arm > 0) { g_armK = arm; g_polls = 0; g_fired = 0; GEOS_interruptCancel(); GEOS_interruptRegisterCallback(interruptcb); }
         Ret r = f.call(c, a);
         int msgs = g_msgs;
+        if (arm > 0) { GEOS_interruptRegisterCallback(nullptr); GEOS_interruptCancel(); g_armK = 0;
+            istat["interrupt_armed_calls"]++; istat["interrupt_polls_seen"] += g_polls; if (g_polls) istat["interrupt_armed_calls_that_poll"]++;
+            if (g_fired) { istat["interrupt_requested"]++; istat[msgs ? "interrupt_ended_with_error_and_message" : "interrupt_absorbed_call_completed"]++; } }
         // ---- effects on the mirror
         std::set<int> ex(consumed.begin(), consumed.end()); ex.insert(mutated.begin(), mutated.end());
         for (size_t i = 0; i < c.slots.size(); i++) { Slot& s = c.slots[i]; if (!s.live) continue;
@@ -536,11 +598,42 @@ struct Gen {
             if (!s.live || s.kind != k) continue; if (excl && !e.c.exclOk((int) i)) continue; if (avoidRoots.count(e.c.root((int) i))) continue; v.push_back((int) i); } return v;
     }
     double dbl(bool tol) { if (r.chance(25)) return (r.unit() - 0.5) * std::pow(10.0, r.range(-2, 3)); if (tol) return TPOOL[r.below(sizeof TPOOL / sizeof TPOOL[0])]; return DPOOL[r.below(sizeof DPOOL / sizeof DPOOL[0])]; }
+    // pathological-but-legal text: one very long token (around and well beyond the sizes of fixed message buffers) in an otherwise
+    // ordinary input.  Most variants are rejected with a message that echoes the token; some are valid input.
+    std::string longText(const std::string& kind) {
+        size_t n = r.chance(8) ? 70000 : LONGLEN[r.below(sizeof LONGLEN / sizeof LONGLEN[0])]; if (r.chance(30)) n += r.below(64);
+        std::string w(n, (char) ('A' + r.below(26)));
+        stat["lit_longtoken_" + kind]++;
+        if (kind == "wkt" || kind == "wktany") switch (r.below(8)) {
+            case 0: return w + " (1 1)";                                   // unknown type
+            case 1: return "POINT (" + w + " 1)";                          // a word where a number is expected
+            case 2: return "LINESTRING " + w;                              // a word where Z / M / EMPTY / ( is expected
+            case 3: return "POINT (1 1 " + w + ")";                        // a word where ) or , is expected
+            case 4: return "POLYGON ((0 0, 1 0, 1 1, 0 0) " + w;           // a word where ) is expected
+            case 5: return "POINT (1." + std::string(n, '0') + "1 2)";     // valid: a very long number
+            case 6: { std::string t = "LINESTRING ("; for (size_t i = 0; i < n / 12 + 2; i++) { if (i) t += ", "; t += std::to_string(i % 97) + " " + std::to_string((i * 7) % 89); } return t + ")"; }   // valid: many vertices
+            default: return "GEOMETRYCOLLECTION (POINT (1 1), " + w + " EMPTY)"; }
+        if (kind == "json") switch (r.below(5)) {
+            case 0: return "{\"type\":\"" + w + "\",\"coordinates\":[1,2]}";
+            case 1: return "{\"type\":\"Point\",\"coordinates\":[" + std::string(n, '1') + ",2]}";
+            case 2: return w;
+            case 3: return "{\"type\":\"Point\",\"" + w + "\":1,\"coordinates\":[1,2]}";          // valid: a long foreign member name
+            default: return "{\"type\":\"Point\",\"coordinates\":[1," + w + "]}"; }
+        if (kind == "hex") switch (r.below(4)) {
+            case 0: return std::string(n, 'F');
+            case 1: return "0101000000000000000000F03F0000000000000040" + w;
+            case 2: return std::string(n, '0');
+            default: return w; }
+        if (kind == "wkb") { std::string b = r.chance(50) ? unhex("0101000000000000000000F03F0000000000000040") : std::string(); return b + std::string(n, r.chance(50) ? (char) 0xFF : (char) 0); }
+        if (kind == "pat") return r.chance(50) ? std::string(n, 'T') : "T*F**FFF*" + w;
+        return w;
+    }
     std::string str(const std::string& kind) {
-        if (kind == "wkt") { int i = (int) r.below(N_WKT); stat[std::string("lit_") + WKT_CLASS(i)]++; return WKT_POOL[i]; }
-        if (kind == "wktany") { if (r.chance(25)) {
-                if (r.chance(12)) { stat["lit_badwkt_overlong_token"]++; return std::string((size_t) (r.chance(50) ? 1500 : 70000), 'Q') + " (1 1)"; }   // an error text longer than any fixed message buffer
-                stat["lit_badwkt"]++; return BAD_WKT[r.below(sizeof BAD_WKT / sizeof BAD_WKT[0])]; } return str("wkt"); }
+        if (kind != "dbl" && r.chance(kind == "wkt" ? 4 : 8)) return longText(kind);
+        if (kind == "wkt") {
+            if (r.chance(22)) { stat["lit_structured"]++; auto& g = genPool().all; return g[r.below(g.size())]; }
+            int i = (int) r.below(N_WKT); stat[std::string("lit_") + WKT_CLASS(i)]++; return WKT_POOL[i]; }
+        if (kind == "wktany") { if (r.chance(25)) { stat["lit_badwkt"]++; return BAD_WKT[r.below(sizeof BAD_WKT / sizeof BAD_WKT[0])]; } return str("wkt"); }
         if (kind == "pat") return PATTERNS[r.below(sizeof PATTERNS / sizeof PATTERNS[0])];
         if (kind == "json") return JSON_POOL[r.below(sizeof JSON_POOL / sizeof JSON_POOL[0])];
         if (kind == "hex") return HEX_POOL[r.below(sizeof HEX_POOL / sizeof HEX_POOL[0])];
@@ -549,10 +642,18 @@ struct Gen {
         if (kind == "dbl") { int n = (int) r.below(9); std::string b; for (int i = 0; i < n * 2; i++) { double d = dbl(false); b.append((const char*) &d, 8); } return b; }
         return "";
     }
+    // a coordinate-like parameter: half of the time placed relative to the envelope of a live geometry (the first geometry argument if there is one)
+    bool envOf(int id, double& x0, double& y0, double& x1, double& y1) {
+        if (id < 0 || id >= (int) e.c.slots.size() || !e.c.slots[id].live || e.c.slots[id].kind != GEOM) return false;
+        const geos::geom::Envelope* en = ((const geos::geom::Geometry*) e.c.slots[id].p)->getEnvelopeInternal();
+        if (!en || en->isNull() || !std::isfinite(en->getMinX()) || !std::isfinite(en->getMaxX()) || !std::isfinite(en->getMinY()) || !std::isfinite(en->getMaxY())) return false;
+        x0 = en->getMinX(); y0 = en->getMinY(); x1 = en->getMaxX(); y1 = en->getMaxY(); return true;
+    }
     // choose arguments; false if the function cannot be called legally now
     bool pick(const Fn& f, std::vector<Val>& a) {
         a.assign(f.spec.size(), Val());
         std::set<int> exclRoots, used;
+        bool haveEnv = false, triedEnv = false; double ex0 = 0, ey0 = 0, ex1 = 0, ey1 = 0; size_t lastFx = (size_t) -1, lastFy = (size_t) -1;
         // pass 1: consumed / modified
         for (size_t k = 0; k < f.spec.size(); k++) { PSpec p = pspec(f.spec[k]); if (!p.isObj || (p.mode != 'x' && p.mode != 'm')) continue;
             auto cand = liveOf(p.kind, true, used);
@@ -565,8 +666,19 @@ struct Gen {
                 auto cand = liveOf(p.kind, false, exclRoots);
                 if (code == "g?" && r.chance(40)) { a[k].k = 'n'; continue; }
                 if (p.isArr) { a[k].k = 'a'; int n = r.chance(20) ? 0 : (int) r.below(4); for (int j = 0; j < n && !cand.empty(); j++) a[k].ids.push_back(cand[r.below(cand.size())]); continue; }
+                if (forceGeom >= 0 && p.kind == GEOM && std::find(cand.begin(), cand.end(), forceGeom) != cand.end()) { a[k].k = 'o'; a[k].id = forceGeom; forceGeom = -1; continue; }
+                if (forceGeom >= 0 && p.kind == PREP) { int pid = -1; for (int c2 : cand) if (!e.c.slots[c2].borrows.empty() && e.c.slots[c2].borrows[0] == forceGeom) pid = c2; if (pid >= 0) { a[k].k = 'o'; a[k].id = pid; forceGeom = -1; continue; } }
                 if (cand.empty()) return false; a[k].k = 'o'; a[k].id = r.chance(50) ? cand[cand.size() - 1 - r.below(std::min<size_t>(cand.size(), 3))] : cand[r.below(cand.size())]; continue; }
             if (code == "d" || code == "dt") { a[k].k = 'd'; a[k].d = dbl(code == "dt"); }
+            else if (code == "dx" || code == "dy") { a[k].k = 'd'; a[k].d = dbl(false);
+                if (!haveEnv && !triedEnv) { triedEnv = true; int gid = -1; for (size_t q = 0; q < f.spec.size() && gid < 0; q++) if (a[q].k == 'o' && e.c.slots[a[q].id].kind == GEOM) gid = a[q].id;
+                    if (gid < 0) for (size_t q = 0; q < f.spec.size() && gid < 0; q++) if (a[q].k == 'o' && e.c.slots[a[q].id].kind == PREP && !e.c.slots[a[q].id].borrows.empty()) gid = e.c.slots[a[q].id].borrows[0];
+                    if (gid < 0) { auto cand = liveOf(GEOM, false, {}); if (!cand.empty()) gid = cand[r.below(cand.size())]; }
+                    haveEnv = r.chance(65) && envOf(gid, ex0, ey0, ex1, ey1); if (haveEnv) stat["coord_params_envelope_relative"]++; }
+                if (haveEnv) { size_t nf = sizeof FPOOL / sizeof FPOOL[0]; bool isx = code == "dx"; size_t& lastI = isx ? lastFx : lastFy;
+                    size_t fi = r.below(nf); if (lastI != (size_t) -1 && fi <= lastI && r.chance(85)) fi = std::min(nf - 1, lastI + 1 + r.below(nf - lastI));   // a second x / y is mostly beyond the first: a proper window
+                    lastI = fi; double fr = r.chance(15) ? r.unit() * 1.4 - 0.2 : FPOOL[fi];
+                    a[k].d = isx ? ex0 + fr * (ex1 - ex0) : ey0 + fr * (ey1 - ey0); } }
             else if (code == "i") { a[k].k = 'i'; a[k].i = r.chance(30) ? r.range(-2, 9) : IPOOL[r.below(sizeof IPOOL / sizeof IPOOL[0])]; }
             else if (code == "i01") { a[k].k = 'i'; a[k].i = (long) r.below(2); }   // enum-TYPED C parameter: only its enumerators (listed exclusion)
             else if (code == "iq") { a[k].k = 'i'; a[k].i = r.chance(30) ? r.range(0, 6) : QPOOL[r.below(sizeof QPOOL / sizeof QPOOL[0])]; }
@@ -583,22 +695,63 @@ struct Gen {
             for (int i = (int) e.c.slots.size() - 1; i >= 0; i--) { if (!e.c.exclOk(i)) continue;
                 const Fn& f = FNS[FNIDX[D.at(e.c.slots[i].kind)]]; std::vector<Val> a(1); a[0].k = 'o'; a[0].id = i; e.doCall(f, a, {}); }
     }
-    // a configured opening: two arguments in a particular relative position, a prepared geometry, and every prepared / binary predicate on
-    // the pair — the rarely taken early-outs of the prepared predicates (vertices inside, a segment leaving; nested frames) become reachable
-    void configuredOpening() {
+    // ---- scenario openings: arguments in a particular relative position, so that the rarely taken branches of the prepared predicates, the
+    // window operations and the message path are reached in every run.  All calls go through doCall like any other.
+    int call1(const char* fn, std::vector<Val> a) { auto it = FNIDX.find(fn); if (it == FNIDX.end()) return -1; size_t before = e.c.slots.size();
+        if (!e.doCall(FNS[it->second], a, {})) return -1; return e.c.slots.size() > before ? (int) e.c.slots.size() - 1 : -2; }
+    static Val S(const std::string& w) { Val v; v.k = 's'; v.s = w; return v; }
+    static Val O(int id) { Val v; v.k = 'o'; v.id = id; return v; }
+    static Val I(long i) { Val v; v.k = 'i'; v.i = i; return v; }
+    // arm the next call: an interruption is requested at its k-th checkpoint poll
+    void arm() { call1("GEOS_interruptRegisterCallback", {I(KPOOL[r.below(sizeof KPOOL / sizeof KPOOL[0])])}); stat["interrupt_arm_pseudo_calls"]++; }
+    bool interruptible(const Fn& f) const { return f.cat == "pred" || f.cat == "constr" || f.cat == "prep" || f.cat == "measure" || f.cat == "mutate" || f.cat == "io" || f.cat == "tree" || f.cat == "create"; }
+    int forceGeom = -1;       // pick(): use this object for the first read-only geometry parameter
+    // a call of `fn` with arguments chosen by pick(), its first geometry argument being `gid`; armed with probability armPct
+    int callOn(const char* fn, int gid, int armPct) { auto it = FNIDX.find(fn); if (it == FNIDX.end()) return -1; const Fn& f = FNS[it->second]; std::vector<Val> a;
+        forceGeom = gid; bool ok = pick(f, a); forceGeom = -1; if (!ok) return -1; if (r.chance(armPct)) arm();
+        size_t before = e.c.slots.size(); if (!e.doCall(f, a, {})) return -1; return e.c.slots.size() > before ? (int) e.c.slots.size() - 1 : -2; }
+    // container / content pair: a prepared container and every prepared / binary predicate and some overlays on the pair
+    void scenarioPair() {
         static const char* P[] = {"POLYGON ((0 0, 10 0, 10 10, 7 10, 7 3, 3 3, 3 10, 0 10, 0 0))", "POLYGON ((0 0, 10 0, 10 10, 0 10, 0 0), (2 2, 4 2, 4 4, 2 4, 2 2))",
             "MULTIPOLYGON (((0 0, 20 0, 20 20, 0 20, 0 0), (2 2, 18 2, 18 18, 2 18, 2 2)), ((4 4, 16 4, 16 16, 4 16, 4 4), (6 6, 14 6, 14 14, 6 14, 6 6)))",
             "POLYGON ((-5 -5, 30 -5, 30 30, -5 30, -5 -5), (2 2, 4 2, 4 4, 2 4, 2 2), (6 6, 8 6, 8 8, 6 8, 6 6))"};
         static const char* L[] = {"LINESTRING (1.5 8, 8.5 8)", "MULTILINESTRING ((1.5 8, 8.5 8), (1 9, 9 9))", "LINESTRING (1 3, 5 3)", "POLYGON ((1 1, 9 1, 9 2, 1 2, 1 1))", "MULTIPOINT ((1 1), (5 5), (9 9))"};
-        auto call1 = [&](const char* fn, std::vector<Val> a) -> int { auto it = FNIDX.find(fn); if (it == FNIDX.end()) return -1; size_t before = e.c.slots.size();
-            if (!e.doCall(FNS[it->second], a, {})) return -1; return e.c.slots.size() > before ? (int) e.c.slots.size() - 1 : -2; };
-        auto S = [](const char* w) { Val v; v.k = 's'; v.s = w; return v; }; auto O = [](int id) { Val v; v.k = 'o'; v.id = id; return v; };
-        int p = call1("GEOSGeomFromWKT_r", {S(P[r.below(4)])}), l = call1("GEOSGeomFromWKT_r", {S(L[r.below(5)])}); if (p < 0 || l < 0) return;
+        bool small = r.chance(25); const GenPool& g = genPool();
+        int p = call1("GEOSGeomFromWKT_r", {S(small ? std::string(P[r.below(4)]) : g.cont[r.below(g.cont.size())])});
+        int l = call1("GEOSGeomFromWKT_r", {S(small ? std::string(L[r.below(5)]) : g.content[r.below(g.content.size())])}); if (p < 0 || l < 0) return;
+        if (r.chance(15)) std::swap(p, l);
         int pr = call1("GEOSPrepare_r", {O(p)}); if (pr < 0) return;
         static const char* PP[] = {"GEOSPreparedContains_r", "GEOSPreparedContainsProperly_r", "GEOSPreparedCoveredBy_r", "GEOSPreparedCovers_r", "GEOSPreparedCrosses_r", "GEOSPreparedDisjoint_r",
             "GEOSPreparedIntersects_r", "GEOSPreparedOverlaps_r", "GEOSPreparedTouches_r", "GEOSPreparedWithin_r"};
-        for (int round = 0; round < 2; round++) for (auto fn : PP) if (r.chance(80)) call1(fn, {O(pr), O(l)});
-        stat["configured_opening"]++;
+        for (int round = 0; round < 2; round++) for (auto fn : PP) if (r.chance(75)) { if (r.chance(12)) arm(); call1(fn, {O(pr), O(l)}); }
+        static const char* BP[] = {"GEOSContains_r", "GEOSCovers_r", "GEOSIntersects_r", "GEOSWithin_r", "GEOSCrosses_r", "GEOSTouches_r", "GEOSRelate_r", "GEOSIntersection_r", "GEOSDifference_r", "GEOSSymDifference_r", "GEOSUnion_r",
+            "GEOSPreparedRelate_r", "GEOSPreparedNearestPoints_r"};
+        for (auto fn : BP) if (r.chance(35)) { if (r.chance(35)) arm(); bool prep = std::string(fn).rfind("GEOSPrepared", 0) == 0; call1(fn, {O(prep ? pr : p), O(l)}); }
+        stat["scenario_pair"]++;
+    }
+    // a container with holes and window / unary operations placed relative to its envelope, many of them interrupted at the k-th poll
+    void scenarioWindow() {
+        const GenPool& g = genPool(); int p = call1("GEOSGeomFromWKT_r", {S(g.cont[r.below(g.cont.size())])}); if (p < 0) return;
+        if (r.chance(50)) call1("GEOSPrepare_r", {O(p)});
+        int n = r.range(3, 7); for (int i = 0; i < n; i++) callOn("GEOSClipByRect_r", p, 60);
+        static const char* U[] = {"GEOSBuffer_r", "GEOSConvexHull_r", "GEOSMakeValid_r", "GEOSUnaryUnion_r", "GEOSPointOnSurface_r", "GEOSisValid_r", "GEOSBoundary_r", "GEOSSimplify_r", "GEOSPreparedContainsXY_r", "GEOSNode_r", "GEOSBuildArea_r",
+            "GEOSMaximumInscribedCircle_r", "GEOSGetCentroid_r", "GEOSisSimple_r", "GEOSDelaunayTriangulation_r", "GEOSPolygonize_full_r"};
+        for (auto fn : U) if (r.chance(30)) callOn(fn, p, 60);
+        stat["scenario_window"]++;
+    }
+    // readers fed with one very long token
+    void scenarioLongText() {
+        int wr = call1("GEOSWKTReader_create_r", {}), jr = call1("GEOSGeoJSONReader_create_r", {}), br = call1("GEOSWKBReader_create_r", {});
+        for (int i = 0; i < 2; i++) {
+            if (wr >= 0) call1("GEOSWKTReader_read_r", {O(wr), S(longText("wkt"))});
+            call1("GEOSGeomFromWKT_r", {S(longText("wkt"))});
+            if (jr >= 0 && r.chance(70)) call1("GEOSGeoJSONReader_readGeometry_r", {O(jr), S(longText("json"))});
+            if (br >= 0 && r.chance(70)) { std::string h = longText("hex"); call1("GEOSWKBReader_readHEX_r", {O(br), S(h), I((long) h.size())}); }
+            if (br >= 0 && r.chance(40)) { std::string h = longText("wkb"); call1("GEOSWKBReader_read_r", {O(br), S(h), I((long) h.size())}); }
+            if (r.chance(40)) { std::string h = longText("hex"); call1("GEOSGeomFromHEX_buf_r", {S(h), I((long) h.size())}); }
+        }
+        auto gs = liveOf(GEOM, false, {}); if (gs.size() >= 1 && r.chance(60)) call1("GEOSRelatePattern_r", {O(gs[0]), O(gs[gs.size() - 1]), S(longText("pat"))});
+        stat["scenario_longtext"]++;
     }
     void run(int len) {
         // C12_FOCUS=<entry point>: make one function dominate (used to look for a failing call after a table proof broke)
@@ -607,12 +760,13 @@ struct Gen {
         // start with a few literals so that most functions are callable
         int nlit = r.range(2, 4);
         for (int i = 0; i < nlit; i++) { const Fn& f = FNS[FNIDX["GEOSGeomFromWKT_r"]]; std::vector<Val> a; if (pick(f, a)) e.doCall(f, a, {}); }
-        if (r.chance(12)) configuredOpening();
+        { int sc = (int) r.below(100); if (sc < 14) scenarioPair(); else if (sc < 24) scenarioWindow(); else if (sc < 29) scenarioLongText(); }
         for (int step = 0; step < len; step++) {
             for (int tries = 0; tries < 20; tries++) {
                 long w = (long) r.below((uint64_t) total); size_t k = 0; while (w >= FNS[k].weight) { w -= FNS[k].weight; k++; }
                 const Fn& f = FNS[k]; std::vector<Val> a;
                 if (!pick(f, a)) continue;
+                if (interruptible(f) && r.chance(10)) arm();
                 if (e.doCall(f, a, {})) { break; }
             }
             // keep the pool bounded: free some buffers / old geometries
@@ -662,37 +816,50 @@ static void runScript(Exec& e, const std::string& line, std::map<std::string, lo
 // ----------------------------------------------------------------------------------------------- parent: run a child, assemble the observed line
 struct ChildResult { std::string line; std::string endClass; std::string stderrTail; int ncalls = 0; long failedCallNo = -1; };
 
-// first stack frame that is GEOS code (function name without arguments), e.g. geos::geom::Point::Point
-static std::string whereOf(const std::string& err, size_t from) {
+// the qualified name of a stack frame line if it is GEOS code ("" otherwise; "harness" for harness code)
+static std::string cleanFrame(const std::string& l) {
+    size_t in = l.find(" in "); if (in == std::string::npos) return "";
+    std::string fn = l.substr(in + 4);
+    bool geosFrame = fn.find("geos::") != std::string::npos || fn.find("geos_nlohmann::") != std::string::npos || fn.rfind("GEOS", 0) == 0;   // by name, never by path
+    if (!geosFrame) return "";
+    if (fn.rfind("operator()", 0) == 0 || fn.rfind("execute<", 0) == 0 || fn.rfind("std::", 0) == 0 || fn.rfind("__", 0) == 0 || fn.rfind("_M_", 0) == 0) return "";
+    if (fn.find("vh::") != std::string::npos || fn.find("/verif/harness") != std::string::npos) return "harness";
+    // keep the qualified function name only: drop the source location, template arguments, parameter list, return type
+    size_t loc = fn.find(" /"); if (loc != std::string::npos) fn = fn.substr(0, loc);
+    std::string o; int depth = 0; for (char ch : fn) { if (ch == '<') depth++; else if (ch == '>') depth--; else if (depth == 0) o.push_back(ch); }
+    size_t par = o.find('('); if (par != std::string::npos) o = o.substr(0, par);
+    while (!o.empty() && o.back() == ' ') o.pop_back();
+    size_t sp = o.rfind(' '); if (sp != std::string::npos) o = o.substr(sp + 1);
+    size_t abi = o.find("[abi:"); if (abi != std::string::npos) o = o.substr(0, abi);
+    // trivial accessors say nothing about the cause: name their caller instead
+    static const char* ACC[] = { "geos::geom::CoordinateSequence::getAt", "geos::geom::CoordinateSequence::front", "geos::geom::CoordinateSequence::back",
+        "geos::geom::CoordinateSequence::getX", "geos::geom::CoordinateSequence::getY", "geos::geom::CoordinateSequence::getOrdinate", "geos::geom::SimpleCurve::getCoordinateN",
+        "geos::geom::CoordinateSequence::operator[]", "geos::geom::Coordinate::operator=", "geos::geom::CoordinateXY::operator=", "geos::geom::Coordinate::Coordinate", "geos::geom::CoordinateXY::CoordinateXY" };
+    bool acc = false; for (auto a : ACC) if (o == a) acc = true;
+    if (acc || o.rfind("std::", 0) == 0 || o.rfind("__gnu", 0) == 0 || (o.find("::") == std::string::npos && o.rfind("GEOS", 0) != 0)) return "";
+    return o;
+}
+
+// first stack frame that is GEOS code (function name without arguments), e.g. geos::geom::Point::Point.
+// withCaller: followed by "<" and the next different GEOS frame of the same stack (used for leaks: the allocating function alone does not
+// tell which of its callers forgot to free)
+static std::string whereOf(const std::string& err, size_t from, bool withCaller = false) {
     size_t p = from;
     while ((p = err.find("\n    #", p)) != std::string::npos) {
         size_t e = err.find('\n', p + 1); std::string l = err.substr(p + 1, e == std::string::npos ? e : e - p - 1); p += 1;
-        size_t in = l.find(" in "); if (in == std::string::npos) continue;
-        std::string fn = l.substr(in + 4);
-        bool geosFrame = fn.find("geos::") != std::string::npos || fn.find("geos_nlohmann::") != std::string::npos || fn.rfind("GEOS", 0) == 0;   // by name, never by path
-        if (!geosFrame) continue;
-        if (fn.rfind("operator()", 0) == 0 || fn.rfind("execute<", 0) == 0 || fn.rfind("std::", 0) == 0 || fn.rfind("__", 0) == 0 || fn.rfind("_M_", 0) == 0) continue;
-        if (fn.find("vh::") != std::string::npos || fn.find("/verif/harness") != std::string::npos) return "harness";
-        // keep the qualified function name only: drop the source location, template arguments, parameter list, return type
-        size_t loc = fn.find(" /"); if (loc != std::string::npos) fn = fn.substr(0, loc);
-        std::string o; int depth = 0; for (char ch : fn) { if (ch == '<') depth++; else if (ch == '>') depth--; else if (depth == 0) o.push_back(ch); }
-        size_t par = o.find('('); if (par != std::string::npos) o = o.substr(0, par);
-        while (!o.empty() && o.back() == ' ') o.pop_back();
-        size_t sp = o.rfind(' '); if (sp != std::string::npos) o = o.substr(sp + 1);
-        size_t abi = o.find("[abi:"); if (abi != std::string::npos) o = o.substr(0, abi);
-        // trivial accessors say nothing about the cause: name their caller instead
-        static const char* ACC[] = { "geos::geom::CoordinateSequence::getAt", "geos::geom::CoordinateSequence::front", "geos::geom::CoordinateSequence::back",
-            "geos::geom::CoordinateSequence::getX", "geos::geom::CoordinateSequence::getY", "geos::geom::CoordinateSequence::getOrdinate", "geos::geom::SimpleCurve::getCoordinateN",
-            "geos::geom::CoordinateSequence::operator[]", "geos::geom::Coordinate::operator=", "geos::geom::CoordinateXY::operator=", "geos::geom::Coordinate::Coordinate", "geos::geom::CoordinateXY::CoordinateXY" };
-        bool acc = false; for (auto a : ACC) if (o == a) acc = true;
-        if (acc || o.rfind("std::", 0) == 0 || o.rfind("__gnu", 0) == 0 || (o.find("::") == std::string::npos && o.rfind("GEOS", 0) != 0)) continue;
+        std::string o = cleanFrame(l); if (o.empty()) continue;
+        if (!withCaller || o == "harness") return o;
+        // the rest of this stack: consecutive frame lines
+        size_t q = e;
+        while (q != std::string::npos && err.compare(q, 6, "\n    #") == 0) { size_t e2 = err.find('\n', q + 1); std::string l2 = err.substr(q + 1, e2 == std::string::npos ? e2 : e2 - q - 1); q = e2;
+            std::string c = cleanFrame(l2); if (c.empty() || c == o || c == "harness") continue; return o + "<" + c; }
         return o;
     }
     return "";
 }
 
 static std::string classifyStderr(const std::string& err) {
-    if (err.find("LeakSanitizer: detected memory leaks") != std::string::npos) return "leak@" + whereOf(err, err.find("LeakSanitizer: detected memory leaks"));
+    if (err.find("LeakSanitizer: detected memory leaks") != std::string::npos) return "leak@" + whereOf(err, err.find("LeakSanitizer: detected memory leaks"), true);
     size_t p = err.find("AddressSanitizer: ");
     if (p != std::string::npos) { size_t q = p + 18; size_t e = q; while (e < err.size() && (isalnum((unsigned char) err[e]) || err[e] == '-' || err[e] == '_')) e++; std::string k = err.substr(q, e - q);
         if (k == "allocation-size-too-big" || k == "out-of-memory" || k == "requested" || k == "calloc-overflow" || k == "allocator" || k == "failed") return "oom";
@@ -731,6 +898,7 @@ static ChildResult runChild(const std::function<void(Exec&, std::map<std::string
         std::map<std::string, long> st;
         body(e, st);
         GEOS_finish_r(e.c.h);
+        for (auto& kv : e.istat) st[kv.first] += kv.second;
         for (auto& kv : st) e.put("S " + kv.first + " " + std::to_string(kv.second));
         e.put("Z");
         close(pfd[1]);
@@ -782,7 +950,7 @@ static ChildResult runChild(const std::function<void(Exec&, std::map<std::string
 
 int main(int argc, char** argv) {
     registerAll();
-    if (argc >= 2 && std::string(argv[1]) == "list") { for (auto& f : FNS) printf("%s\n", f.name.c_str()); return 0; }
+    if (argc >= 2 && std::string(argv[1]) == "list") { for (auto& f : FNS) printf("%s%s\n", f.cat == "interrupt" ? "#global " : "", f.name.c_str()); return 0; }
     if (argc < 3) { fprintf(stderr, "usage: c12 api-seq <seed> <n> <outbase> | replay <file> [-v] | list\n"); return 2; }
     std::string stream = argv[1];
     double timeout = getenv("C12_CALL_TIMEOUT") ? atof(getenv("C12_CALL_TIMEOUT")) : 20.0;
